@@ -61,7 +61,7 @@ def run(tier, seed, jobs):
                   "asimap's documented rule 'a deleted mailbox that is subscribed or has inferiors is kept as \\Noselect' is part of the model; attributes other than "
                   "\\Noselect/\\HasChildren/\\HasNoChildren (SPECIAL-USE, \\Marked) are not compared",
                   "LIST-EXTENDED selection/return options are not part of this check's menu"],
-                 time_budget=85 if tier == "quick" else 1500)
+                 time_budget=85 if tier == "quick" else 900)
 
 
 def replay(rec):
